@@ -520,3 +520,51 @@ def check_no_internal_escape(ctx: Ctx, rule: str = "TS8") -> None:
                           message=f"{fi.qualname} may hand out message objects stored inside the sequence (editing them "
                                   f"bypasses the view invalidation): {why}", file=fi.file, node=fi.node)
     ctx.floor("public value-returning Sequence methods", n, 10)
+
+
+# ================================================================================================ ADOPT
+STORE_METHODS = ("append", "extend", "insert", "add_message", "_add_message_unsorted", "__setitem__", "update", "add")
+
+
+def adopted_foreign(eng: OwnershipEngine, fi: FuncInfo) -> list[tuple[ast.AST, str]]:
+    """Stores of `fi` (a method) that put objects reachable from a *non-self* parameter into a container of `self`
+    without copying them: [(node, explanation)].  Same expression taint as the route analysis, seeded with the foreign
+    parameters only."""
+    ft = _FuncTaint(eng, fi)
+    own = ft.params[0] if fi.cls and ft.params else None
+    for prm in ft.params:
+        if prm == own:
+            continue
+        if eng.scalar_kind(eng.k.param_kinds.get((fi.qualname, prm))) or ft.scalar_annotation(prm):
+            continue
+        ft.B.add(prm)
+        ft.note[prm] = f"parameter `{prm}`"
+    body = list(walk_local(fi.node))
+    for _ in range(40):
+        before = len(ft.B)
+        for n in body:
+            ft.visit(n)
+        if len(ft.B) == before:
+            break
+    out = []
+    for n in body:
+        if isinstance(n, ast.Call):
+            recv, name = call_method(n)
+            if recv is None or name not in STORE_METHODS:
+                continue
+            ch = attr_chain(recv) or []
+            if not ch or ch[0] != "self":
+                continue
+            args = list(n.args) + [k.value for k in n.keywords]
+            t, why = ft.any_T(args)
+            if t:
+                out.append((n, why))
+        elif isinstance(n, (ast.Assign, ast.AugAssign)):
+            tg = n.targets if isinstance(n, ast.Assign) else [n.target]
+            for t_ in tg:
+                ch = attr_chain(t_.value if isinstance(t_, ast.Subscript) else t_) or []
+                if ch and ch[0] == "self" and len(ch) >= 2:
+                    t, why = ft.T(n.value)
+                    if t:
+                        out.append((n, why))
+    return out
